@@ -5,6 +5,7 @@
 #include <assert.h>
 #include <ctype.h>
 #include <errno.h>
+#include <limits.h>
 #include <pthread.h>
 #include <signal.h>
 #include <stdio.h>
@@ -418,7 +419,10 @@ string Subprocess::communicate(
       }
     }
     if (events.count(this->stdin_write_fd)) {
-      size_t bytes_remaining = stdin_size - stdin_offset;
+      // The pipe is blocking, so write only as much as poll() guarantees will
+      // not block; otherwise a child that fills its stdout before reading all
+      // of its stdin would deadlock with us
+      size_t bytes_remaining = min<size_t>(stdin_size - stdin_offset, PIPE_BUF);
       ssize_t bytes_written = write(
           this->stdin_write_fd,
           reinterpret_cast<const uint8_t*>(stdin_data) + stdin_offset,
@@ -437,6 +441,19 @@ string Subprocess::communicate(
         this->stdin_write_fd = -1;
       }
     }
+  }
+
+  // The child may have exited with output still in the pipe; read the rest
+  if ((this->stdout_read_fd >= 0) && (this->wait(true) >= 0)) {
+    for (;;) {
+      stdout_queue.emplace_back(read(this->stdout_read_fd, 4096));
+      if (stdout_queue.back().empty()) {
+        break;
+      }
+      stdout_bytes += stdout_queue.back().size();
+    }
+    close(this->stdout_read_fd);
+    this->stdout_read_fd = -1;
   }
 
   if (deadline_usecs && (this->wait(true) < 0)) {
